@@ -148,6 +148,23 @@ m("m41","src/fs/path/mod.rs","""                p.set_extension(""); // restore 
 m("m60","src/fs/shell.rs","""            .current_dir(work_dir.to_string())""","""            .current_dir(if std::path::Path::new(&work_dir.to_string()).is_absolute() { work_dir.to_string() } else { ".".to_string() })""",["C17"],"run working directory falls back to the process cwd for relative renderings")
 m("m_join_nl","src/core/execute/pp/mod.rs","""                let command = d.args.join(" ");""","""                let command = d.args.join("\n");""",["C17"],"run args joined with newline")
 
+m("m103","src/core/execute/mod.rs","""                    let _ = self.progress.add_total(directory.subdirs.len());
+                    for file in directory.files {""","""                    for file in directory.files {""",["C03","C04","C11"],"add_total not bumped for scanned sub-directories")
+m("m77","src/core/execute/mod.rs","""                Err(TryRecvError::Empty) => {
+                    if self.progress.is_done() {
+                        break;
+                    }""","""                Err(TryRecvError::Empty) => {
+                    if self.progress.is_done() || start_time.elapsed().as_millis() > 700 {
+                        break;
+                    }""",["C03","C04"],"coordinator stops waiting 0.7 s after start")
+m("m_early","src/core/execute/mod.rs","""                Err(TryRecvError::Empty) => {
+                    if self.progress.is_done() {
+                        break;
+                    }""","""                Err(TryRecvError::Empty) => {
+                    if self.progress.is_done() || self.progress.done_count > 0 {
+                        break;
+                    }""",["C03","C02","C04"],"coordinator leaves its loop on the first empty poll after any result was received")
+
 def main():
     only = sys.argv[1:]
     os.makedirs(OUT, exist_ok=True)
